@@ -50,13 +50,42 @@ pub fn whole(w: &World, b: usize, n: u64) -> u64 {
     n * 10u64.pow(w.banks[b].decimals as u32)
 }
 
-fn do_all(w: &World, s: &mut Store, acts: &[Action], what: &str) {
+/// Root constructions that did not go through on this tree. On the unchanged tree there are none; on a
+/// changed tree a root may be unbuildable because the program now misbehaves on the way to it: the remaining
+/// roots are still explored (a violation found there is the verdict), and the failures are reported as a
+/// machinery failure otherwise.
+pub static ROOT_FAILURES: std::sync::Mutex<Vec<String>> = std::sync::Mutex::new(Vec::new());
+
+fn root_failure(msg: String) {
+    let mut g = ROOT_FAILURES.lock().unwrap();
+    if !g.contains(&msg) {
+        g.push(msg);
+    }
+}
+
+/// Builds a model under `catch_unwind`: a panic while constructing the worlds / roots (an assertion of the
+/// harness about a step that always succeeds on the unchanged tree) is recorded like an unbuildable root.
+pub fn guarded<T>(what: &str, f: impl FnOnce() -> T) -> Option<T> {
+    match std::panic::catch_unwind(std::panic::AssertUnwindSafe(f)) {
+        Ok(v) => Some(v),
+        Err(e) => {
+            let msg = e.downcast_ref::<String>().cloned().or_else(|| e.downcast_ref::<&str>().map(|s| s.to_string())).unwrap_or_default();
+            root_failure(format!("model construction {what} panicked: {}", msg.chars().take(300).collect::<String>()));
+            None
+        }
+    }
+}
+
+#[must_use]
+fn do_all(w: &World, s: &mut Store, acts: &[Action], what: &str) -> bool {
     for a in acts {
         let r = act::apply(w, s, a);
         if !r.committed {
-            panic!("root construction {what}: {:?} failed with {} {:?}", a, crate::svm::err_name(r.code), crate::svm::last_panic());
+            root_failure(format!("root construction {what}: {:?} failed with {} {:?}", a, crate::svm::err_name(r.code), crate::svm::last_panic()));
+            return false;
         }
     }
+    true
 }
 
 /// price of one whole token of bank b in dollars (from the spec used above)
@@ -90,8 +119,12 @@ pub fn standard_roots(w: &World, s0: &Store, with_forged: bool) -> Vec<(String, 
 
     // R0: seeded banks, users without positions; insurance vaults hold a little
     let mut r0 = s0.clone();
+    let mut ok0 = true;
     for b in 0..nb {
-        do_all(w, &mut r0, &[Action::Deposit { u: seeder, b, amt: whole(w, b, 1000) + 1, up_to_limit: None }], "R0 seed");
+        ok0 &= do_all(w, &mut r0, &[Action::Deposit { u: seeder, b, amt: whole(w, b, 1000) + 1, up_to_limit: None }], "R0 seed");
+    }
+    if !ok0 {
+        return roots;
     }
     roots.push(("R0".to_string(), mk(r0.clone(), false)));
 
@@ -99,7 +132,7 @@ pub fn standard_roots(w: &World, s0: &Store, with_forged: bool) -> Vec<(String, 
     let mut r1 = r0.clone();
     let coll = dollar_amount(w, &r1, 0, 50_000); // $500
     let debt = dollar_amount(w, &r1, 1, 20_000); // $200
-    do_all(
+    let ok1 = do_all(
         w,
         &mut r1,
         &[
@@ -113,19 +146,22 @@ pub fn standard_roots(w: &World, s0: &Store, with_forged: bool) -> Vec<(String, 
         ],
         "R1",
     );
-    roots.push(("R1".to_string(), mk(r1.clone(), false)));
+    if ok1 {
+        roots.push(("R1".to_string(), mk(r1.clone(), false)));
 
-    // R2: u0 is underwater after the debt asset tripled
-    let mut r2 = r1.clone();
-    do_all(w, &mut r2, &[Action::SetPrice { b: 1, num: 3, den: 1 }], "R2");
-    roots.push(("R2".to_string(), mk(r2, false)));
+        // R2: u0 is underwater after the debt asset tripled
+        let mut r2 = r1.clone();
+        if do_all(w, &mut r2, &[Action::SetPrice { b: 1, num: 3, den: 1 }], "R2") {
+            roots.push(("R2".to_string(), mk(r2, false)));
+        }
+    }
 
     // R3: u0 has (almost) no assets left but still owes: bankruptcy is one step away.
     // small collateral, small debt, debt asset x30, u1 liquidates the whole collateral
     let mut r3 = r0.clone();
     let coll = dollar_amount(w, &r3, 0, 200); // $2
     let debt = dollar_amount(w, &r3, 1, 120); // $1.2
-    do_all(
+    let ok3 = do_all(
         w,
         &mut r3,
         &[
@@ -138,14 +174,18 @@ pub fn standard_roots(w: &World, s0: &Store, with_forged: bool) -> Vec<(String, 
         "R3 prep",
     );
     // liquidate as much collateral as the program allows (whole position, else successively less)
-    let pos = {
+    let pos = if ok3 {
         let a = account(&r3, &w.users[0].account);
         let bk = bank(&r3, &w.banks[0].key);
-        let bal = a.lending_account.balances.iter().find(|x| x.active != 0 && x.bank_pk == w.banks[0].key).unwrap();
-        (I80F48::from(bal.asset_shares) * I80F48::from(bk.asset_share_value)).to_num::<u64>()
+        a.lending_account.balances.iter().find(|x| x.active != 0 && x.bank_pk == w.banks[0].key).map(|bal| (I80F48::from(bal.asset_shares) * I80F48::from(bk.asset_share_value)).to_num::<u64>()).unwrap_or(0)
+    } else {
+        0
     };
     let mut ok = false;
-    for amt in [pos, pos - 1, pos * 99 / 100, pos * 9 / 10] {
+    for amt in [pos, pos.saturating_sub(1), pos * 99 / 100, pos * 9 / 10] {
+        if amt == 0 {
+            continue;
+        }
         let mut t = r3.clone();
         if act::apply(w, &mut t, &Action::Liquidate { liquidator: 1, liquidatee: 0, asset: 0, liab: 1, amt }).committed {
             r3 = t;
@@ -160,8 +200,7 @@ pub fn standard_roots(w: &World, s0: &Store, with_forged: bool) -> Vec<(String, 
         let bad = {
             let a = account(&r3i, &w.users[0].account);
             let bk = bank(&r3i, &w.banks[1].key);
-            let bal = a.lending_account.balances.iter().find(|x| x.active != 0 && x.bank_pk == w.banks[1].key).unwrap();
-            (I80F48::from(bal.liability_shares) * I80F48::from(bk.liability_share_value)).to_num::<u64>()
+            a.lending_account.balances.iter().find(|x| x.active != 0 && x.bank_pk == w.banks[1].key).map(|bal| (I80F48::from(bal.liability_shares) * I80F48::from(bk.liability_share_value)).to_num::<u64>()).unwrap_or(0)
         };
         mint_to(&mut r3i, &w.mint_auth, &w.banks[1].mint, &w.banks[1].iv, w.banks[1].t22, bad / 3 + 1);
         roots.push(("R3i".to_string(), mk(r3i, false)));
@@ -170,7 +209,7 @@ pub fn standard_roots(w: &World, s0: &Store, with_forged: bool) -> Vec<(String, 
     // R6: bank 0 accrues (u3 borrows it against bank 1) while u1 holds an *empty but active* balance
     // in bank 0 (deposit 1, withdraw 1): close_balance is one step away
     let mut r6 = r0.clone();
-    do_all(
+    let ok6 = do_all(
         w,
         &mut r6,
         &[
@@ -183,6 +222,9 @@ pub fn standard_roots(w: &World, s0: &Store, with_forged: bool) -> Vec<(String, 
     // deposit a little and take out exactly what was credited (transfer-fee mints credit less)
     let mut built = false;
     for amt in [1u64, 20, 1000] {
+        if !ok6 {
+            break;
+        }
         let mut t = r6.clone();
         if !act::apply(w, &mut t, &Action::Deposit { u: 1, b: 0, amt, up_to_limit: None }).committed {
             continue;
@@ -205,32 +247,41 @@ pub fn standard_roots(w: &World, s0: &Store, with_forged: bool) -> Vec<(String, 
     // R7: like R1, but the group's risk admin is the borrower u1 itself (the risk admin is an ordinary
     // key and may hold positions): whatever privileges that role has must not leak into plain banks
     let mut r7 = r1.clone();
-    {
+    if ok1 {
         let mut roles = ix::GroupRoles { admin: w.roles.admin, emode: w.roles.emode, curve: w.roles.curve, limit: w.roles.limit, emissions: w.roles.emissions, metadata: w.roles.metadata, risk: w.users[1].authority };
         roles.risk = w.users[1].authority;
         let r = crate::svm::process_tx(&mut r7, &crate::svm::Tx::one(ix::group_configure(w.group, w.roles.admin, &roles, None, None), &[w.roles.admin]));
-        assert!(r.ok(), "R7 group_configure");
+        if r.ok() {
+            roots.push(("R7".to_string(), mk(r7, false)));
+        } else {
+            root_failure(format!("root construction R7: group_configure failed with {}", crate::svm::err_name(r.code())));
+        }
     }
-    roots.push(("R7".to_string(), mk(r7, false)));
 
     // RE: a Token-2022 bank whose transfer fee is scheduled to drop: the mint's fee authority lowers the
     // fee (effective two epochs later) and one epoch passes, so the current epoch still charges the old
     // fee while the next one will charge a fifth of it
     for (bi, bh) in w.banks.iter().enumerate() {
         let Some((bps, max)) = w.mints.get(&bh.mint).and_then(|m| m.fee) else { continue };
-        if bps < 5 || bps >= 10_000 {
+        if bps < 5 || bps >= 10_000 || !ok1 {
             continue;
         }
-        let mut re = r1.clone();
-        let ixf = spl_token_2022::extension::transfer_fee::instruction::set_transfer_fee(&spl_token_2022::id(), &bh.mint, &w.mint_auth, &[], bps / 5, max).unwrap();
-        let r = crate::svm::process_tx(&mut re, &crate::svm::Tx::one(crate::svm::Ix::from(ixf), &[w.mint_auth]));
-        assert!(r.ok(), "RE set_transfer_fee: {}", crate::svm::err_name(r.code()));
-        re.epoch += 1;
-        roots.push((format!("RE{bi}"), mk(re, false)));
+        // two schedules: the fee drops to a fifth (RE), and the fee is abolished (RZ)
+        for (name, new_bps, new_max) in [("RE", bps / 5, max), ("RZ", 0u16, 0u64)] {
+            let mut re = r1.clone();
+            let ixf = spl_token_2022::extension::transfer_fee::instruction::set_transfer_fee(&spl_token_2022::id(), &bh.mint, &w.mint_auth, &[], new_bps, new_max).unwrap();
+            let r = crate::svm::process_tx(&mut re, &crate::svm::Tx::one(crate::svm::Ix::from(ixf), &[w.mint_auth]));
+            if !r.ok() {
+                root_failure(format!("root construction {name}: set_transfer_fee failed with {}", crate::svm::err_name(r.code())));
+                continue;
+            }
+            re.epoch += 1;
+            roots.push((format!("{name}{bi}"), mk(re, false)));
+        }
         break;
     }
 
-    if with_forged {
+    if with_forged && ok1 {
         // R4: forged fee buckets: fractional, >1, and larger than the vault
         let mut r4 = r1.clone();
         let v0 = token_amount(&r4, &w.banks[0].lv);
@@ -254,25 +305,32 @@ pub fn tokenless_roots(w: &World, s0: &Store) -> Vec<(String, HState)> {
     let nb = w.banks.len();
     let mk = |s: Store| HState { s, clock_devs: 0, price_devs: 0, closes: vec![0; nb], forged: false };
     let std = standard_roots(w, s0, false);
-    let get = |n: &str| std.iter().find(|(k, _)| k == n).map(|(_, h)| h.s.clone()).unwrap();
-    let allow = |s: &mut Store, b: usize| {
+    let get = |n: &str| std.iter().find(|(k, _)| k == n).map(|(_, h)| h.s.clone());
+    let allow = |s: &mut Store, b: usize| -> bool {
         let r = crate::svm::process_tx(s, &crate::svm::Tx::one(ix::configure_bank(w.group, w.roles.admin, w.banks[b].key, BankConfigOpt { tokenless_repayments_allowed: Some(true), ..Default::default() }), &[w.roles.admin]));
-        assert!(r.ok(), "tokenless root: configure_bank");
+        if !r.ok() {
+            root_failure(format!("tokenless root: configure_bank failed with {}", crate::svm::err_name(r.code())));
+        }
+        r.ok()
     };
     let mut roots = vec![];
     // RT: share values != 1 (R1); bank 0 allows token-less repayment; u1 owes it, u0 and the seeder lend it
-    let mut rt = get("R1");
-    allow(&mut rt, 0);
-    roots.push(("RT".to_string(), mk(rt.clone())));
-    // RTC: the debts were written off and the bank is complete: purging lenders is one step away
-    let mut rtc = rt.clone();
-    do_all(w, &mut rtc, &[Action::TokenlessRepay { u: 1, b: 0 }], "RTC");
-    if bank(&rtc, &w.banks[0].key).flags & marginfi_type_crate::constants::TOKENLESS_REPAYMENTS_COMPLETE == 0 {
-        do_all(w, &mut rtc, &[Action::ForceTokenlessComplete { b: 0 }], "RTC complete");
+    if let Some(mut rt) = get("R1") {
+        if allow(&mut rt, 0) {
+            roots.push(("RT".to_string(), mk(rt.clone())));
+            // RTC: the debts were written off and the bank is complete: purging lenders is one step away
+            let mut rtc = rt.clone();
+            let mut okc = do_all(w, &mut rtc, &[Action::TokenlessRepay { u: 1, b: 0 }], "RTC");
+            if okc && bank(&rtc, &w.banks[0].key).flags & marginfi_type_crate::constants::TOKENLESS_REPAYMENTS_COMPLETE == 0 {
+                okc = do_all(w, &mut rtc, &[Action::ForceTokenlessComplete { b: 0 }], "RTC complete");
+            }
+            if okc {
+                roots.push(("RTC".to_string(), mk(rtc)));
+            }
+        }
     }
-    roots.push(("RTC".to_string(), mk(rtc)));
     // RTD: only the seeder lends bank 0; u1 holds an empty but active balance there; bank complete
-    let mut rtd = get("R0");
+    let Some(mut rtd) = get("R0") else { return roots };
     let mut built = false;
     for amt in [5u64, 50, 5000] {
         let mut t = rtd.clone();
@@ -290,9 +348,7 @@ pub fn tokenless_roots(w: &World, s0: &Store) -> Vec<(String, HState)> {
             break;
         }
     }
-    if built {
-        allow(&mut rtd, 0);
-        do_all(w, &mut rtd, &[Action::ForceTokenlessComplete { b: 0 }], "RTD complete");
+    if built && allow(&mut rtd, 0) && do_all(w, &mut rtd, &[Action::ForceTokenlessComplete { b: 0 }], "RTD complete") {
         roots.push(("RTD".to_string(), mk(rtd)));
     }
     roots
@@ -338,6 +394,9 @@ pub fn last_kind(trace: &[String]) -> String {
 
 pub fn assemble(id: &str, runs: Vec<HistRun>, required: &[&str], expected: &[&str], rule: &str, assumptions: Vec<String>, forged_roots: &[&str]) -> Outcome {
     let mut o = Outcome { level: "model_checking".into(), assumptions, ..Default::default() };
+    for f in ROOT_FAILURES.lock().unwrap().iter() {
+        o.machinery.push(f.clone());
+    }
     let mut states = 0u64;
     let mut transitions = 0u64;
     let mut classes: std::collections::BTreeMap<String, u64> = Default::default();
